@@ -1,73 +1,180 @@
-"""C20 - native runtime containers are memory-safe and behave as sequences (DESIGN 5/C20)."""
+"""C20 - native runtime containers are memory-safe and behave as sequences (DESIGN 5/C20).
+
+Unit: src/runtime/dyn_array.c (linked as an unmodified translation unit), contracts in contracts/dyn_contracts.h,
+harness harness/dyn_h.c.  Element kinds are a case split (-DVERIF_KIND), struct element sizes a further one
+(-DVERIF_ESZ / -DVERIF_SSZ); everything else (length, capacity, index, values, store contents) is symbolic.
+"""
 import os
 
 HARNESS = "harness/dyn_h.c"
 DYN_SRC = ["src/runtime/dyn_array.c"]
 KINDS = {1: "int", 8: "u8", 2: "float", 3: "string", 4: "bool", 5: "array", 6: "struct", 7: "pointer"}
+NONSTRUCT = [1, 8, 2, 3, 4, 5, 7]
 GI = ["--no-malloc-may-fail"]   # goto-instrument bakes the malloc model into the DFCC library
 TYPED = [1, 8, 2, 3, 4, 5]
 SFX = {1: "int", 8: "u8", 2: "float", 3: "string", 4: "bool", 5: "array"}
+GC = ["gc_alloc", "gc_release"]
+# Struct element sizes: a constant per query (see contracts/dyn_contracts.h: a symbolic size is out of reach).  Cost grows
+# with the size and is far higher for sizes that are not powers of two, so the split is NOT complete in either tier and
+# every struct-array obligation is labelled bounded: B(struct elem_size in {...}).
+ESZ = {   # op class -> (quick sizes, additional thorough sizes)
+    "cheap": ([0, 1, 3, 8, 24, 40], [2, 4, 5, 6, 7, 12, 16, 32, 48, 56, 64]),
+    "set_struct": ([0, 1, 3, 8, 24], [2, 4, 5, 6, 7, 12, 16, 32, 40, 48, 56, 64]),
+    "push_struct": ([1, 8, 24], [2, 3, 4, 16, 32, 40]),
+    "remove_at": ([0, 1, 2, 8, 16], [4, 32, 64, 128]),   # powers of two only: (index+1)*esz = index*esz+esz is out of reach otherwise
+}
+
+
+def esz_variants(cls):
+    """yield (suffix, esz, tier, strength)"""
+    q, t = ESZ[cls]
+    lab = "B(struct elem_size in {%s}; quick tier {%s})" % (",".join(map(str, sorted(q + t))), ",".join(map(str, q)))
+    for e in q:
+        yield ("e%d" % e, e, "quick", lab)
+    for e in t:
+        yield ("e%d" % e, e, "thorough", lab)
+
+
+def dyn_ob(prop, oid, k, entry, fn, defines=None, c08=False, **kw):
+    d = {"VERIF_KIND": k}
+    if c08:
+        d["VERIF_C08"] = 1
+    d.update(defines or {})
+    o = dict(id=oid, prop=prop, harness=HARNESS, entry=entry, defines=d, sources=DYN_SRC, enforce=fn, gi_flags=GI,
+             unwind="auto", strength="X", functions=[fn], must_have=[r"%s\.postcondition" % fn, r"COVER"],
+             min_checks=10, timeout=240, witness={"replayer": "dyn"})
+    o.update(kw)
+    return o
+
+
+ABORT = {"VERIF_EXPECT_ABORT": 1}
 
 
 def dyn_typed(prop, pfx, ops, c08=False):
     obs = []
     for k in TYPED:
-        nm = KINDS[k]
         for op in ops:
             fn = "dyn_array_%s_%s" % (op, SFX[k])
-            d = {"VERIF_KIND": k}
-            if c08:
-                d["VERIF_C08"] = 1
-            if op in ("get", "set"):
-                d["VERIF_EXPECT_ABORT"] = 1
-            obs.append(dict(id="%s.%s.%s" % (pfx, op, nm), prop=prop, harness=HARNESS, entry="h_" + op, defines=d,
-                            sources=DYN_SRC, enforce=fn, gi_flags=GI, unwind="auto", strength="X", functions=[fn],
-                            must_have=[r"%s\.postcondition" % fn, r"COVER"], min_checks=10,
-                            witness=None))
+            obs.append(dyn_ob(prop, "%s.%s.%s" % (pfx, op, KINDS[k]), k, "h_" + op, fn, c08=c08,
+                              defines=ABORT if op in ("get", "set") else None, weight=5 if op == "push" else 1))
     return obs
 
 
-def dyn_ob(prop, pfx, op, k, entry, fn, c08=False, **kw):
-    d = {"VERIF_KIND": k}
-    if c08:
-        d["VERIF_C08"] = 1
-    d.update(kw.pop("defines", {}))
-    o = dict(id="%s.%s.%s" % (pfx, op, KINDS[k]), prop=prop, harness=HARNESS, entry=entry, defines=d,
-             sources=DYN_SRC, enforce=fn, gi_flags=GI, unwind="auto", strength="X", functions=[fn],
-             must_have=[r"%s\.postcondition" % fn, r"COVER"], min_checks=10, witness=None)
-    o.update(kw)
-    return o
+def generic_ops(with_all):
+    """(op, entry, function, extra keys) of the kind-generic operations"""
+    ops = [("remove_at", "h_remove_at", "dyn_array_remove_at", dict(defines=ABORT, replace=["memmove"], weight=6))]
+    if with_all:
+        ops += [
+            ("clear", "h_clear", "dyn_array_clear", {}),
+            ("length", "h_length", "dyn_array_length", {}),
+            ("capacity", "h_capacity", "dyn_array_capacity", {}),
+            ("elem_type", "h_elem_type", "dyn_array_get_elem_type", {}),
+            ("reserve", "h_reserve", "dyn_array_reserve", dict(weight=3)),
+            ("new", "h_new", "dyn_array_new", dict(replace=GC)),
+            ("new_with_capacity", "h_new_cap", "dyn_array_new_with_capacity", dict(replace=GC)),
+            ("clone", "h_clone", "dyn_array_clone", dict(replace=GC, weight=3)),
+        ]
+    return ops
 
 
-def dyn_generic(prop, pfx):
+def struct_ops(c08):
+    return [
+        ("get_struct", "h_get_struct", "dyn_array_get_struct", {}),
+        ("set_struct", "h_set_struct", "dyn_array_set_struct", dict(defines=ABORT, replace=["memcpy"])),
+        ("pop_struct", "h_pop_struct", "dyn_array_pop_struct",
+         dict(defines={"VERIF_EXPECT_ABORT": 1, "VERIF_GHOST_OFF": 1}, replace=["memcpy"])),
+    ]
+
+
+def dyn_generic(prop, pfx, with_all=True):
     obs = []
-    for k in KINDS:
-        obs.append(dyn_ob(prop, pfx, "remove_at", k, "h_remove_at", "dyn_array_remove_at", defines={"VERIF_EXPECT_ABORT": 1}))
-        obs.append(dyn_ob(prop, pfx, "clear", k, "h_clear", "dyn_array_clear"))
-        obs.append(dyn_ob(prop, pfx, "length", k, "h_length", "dyn_array_length"))
-        obs.append(dyn_ob(prop, pfx, "capacity", k, "h_capacity", "dyn_array_capacity"))
-        obs.append(dyn_ob(prop, pfx, "elem_type", k, "h_elem_type", "dyn_array_get_elem_type"))
-        obs.append(dyn_ob(prop, pfx, "reserve", k, "h_reserve", "dyn_array_reserve"))
-        obs.append(dyn_ob(prop, pfx, "new", k, "h_new", "dyn_array_new", replace=["gc_alloc", "gc_release"]))
-        obs.append(dyn_ob(prop, pfx, "new_with_capacity", k, "h_new_cap", "dyn_array_new_with_capacity",
-                          replace=["gc_alloc", "gc_release"]))
-        obs.append(dyn_ob(prop, pfx, "clone", k, "h_clone", "dyn_array_clone", replace=["gc_alloc", "gc_release"]))
-        obs.append(dyn_ob(prop, pfx, "push_struct", k, "h_push_struct", "dyn_array_push_struct",
-                          defines={"VERIF_EXPECT_ABORT": 1}))
+    for op, entry, fn, kw in generic_ops(with_all):
+        for k in NONSTRUCT:
+            obs.append(dyn_ob(prop, "%s.%s.%s" % (pfx, op, KINDS[k]), k, entry, fn, **dict(kw)))
+        if op in ("new", "new_with_capacity"):   # element size plays no role yet: the struct array is born with elem_size 0
+            obs.append(dyn_ob(prop, "%s.%s.struct" % (pfx, op), 6, entry, fn, **dict(kw)))
+            continue
+        for sfx, e, tier, st in esz_variants("remove_at" if op == "remove_at" else "cheap"):
+            kw2 = dict(kw)
+            d = dict(kw2.pop("defines", None) or {})
+            d["VERIF_ESZ"] = e
+            obs.append(dyn_ob(prop, "%s.%s.struct.%s" % (pfx, op, sfx), 6, entry, fn, defines=d, tier=tier, strength=st, **kw2))
     return obs
 
 
 def dyn_struct(prop, pfx, c08=False):
-    return [
-        dyn_ob(prop, pfx, "get_struct", 6, "h_get_struct", "dyn_array_get_struct", c08=c08),
-        dyn_ob(prop, pfx, "set_struct", 6, "h_set_struct", "dyn_array_set_struct", c08=c08, defines={"VERIF_EXPECT_ABORT": 1}),
-        dyn_ob(prop, pfx, "pop_struct", 6, "h_pop_struct", "dyn_array_pop_struct", c08=c08,
-               defines={"VERIF_EXPECT_ABORT": 1, "VERIF_GHOST_OFF": 1}),
-    ]
+    obs = []
+    for op, entry, fn, kw in struct_ops(c08):
+        for sfx, e, tier, st in esz_variants("set_struct" if op == "set_struct" else "cheap"):
+            kw2 = dict(kw)
+            d = dict(kw2.pop("defines", None) or {})
+            d["VERIF_ESZ"] = e
+            obs.append(dyn_ob(prop, "%s.%s.%s" % (pfx, op, sfx), 6, entry, fn, defines=d, c08=c08, tier=tier, strength=st, **kw2))
+    return obs
+
+
+def dyn_push_struct(prop, pfx):
+    """push_struct: (a) struct array that already has an element size E (struct_size symbolic, pinned by the code's own
+    assert); (b) fresh struct array (elem_size 0) and (c) EMPTY array of any other kind (promotion): struct_size becomes
+    the element size -> split over struct_size 1..255 plus the class > 255 (must not return)."""
+    obs = []
+    kw = dict(replace=["memcpy"], weight=6)
+    fn = "dyn_array_push_struct"
+    for sfx, e, tier, st in esz_variants("push_struct"):
+        obs.append(dyn_ob(prop, "%s.push_struct.struct.%s" % (pfx, sfx), 6, "h_push_struct", fn,
+                          defines={"VERIF_ESZ": e, "VERIF_EXPECT_ABORT": 1}, tier=tier, strength=st, **kw))
+    for who, k, base in (("fresh", 6, {"VERIF_ESZ": 0}), ("promote", 0, {})):
+        for sfx, e, tier, st in esz_variants("push_struct"):
+            d = dict(base, VERIF_SSZ=e)
+            if who == "promote":      # a non-empty array of another kind must end the run
+                d["VERIF_EXPECT_ABORT"] = 1
+            obs.append(dyn_ob(prop, "%s.push_struct.%s.s%s" % (pfx, who, sfx[1:]), k, "h_push_struct", fn, defines=d,
+                              tier=tier, strength=st, **kw))
+        d = dict(base, VERIF_SSZ_BIG=1, VERIF_EXPECT_ABORT=1)
+        obs.append(dyn_ob(prop, "%s.push_struct.%s.big" % (pfx, who), k, "h_push_struct", fn, defines=d,
+                          must_have=[r"COVER"], **kw))
+    return obs
+
+
+LIST_H = "harness/list_h.c"
+LIST_ANN = [("src/runtime/list_int.c", "contracts/loops/list_int.c.loops")]
+# (op, entry, function, reaches exit(1)?, grows (ensure_capacity loop + realloc)?, memmove?)
+LIST_OPS = [("with_capacity", "h_with_capacity", "list_int_with_capacity", 0, 0, 0), ("new", "h_new", "list_int_new", 0, 0, 0),
+            ("get", "h_get", "list_int_get", 1, 0, 0), ("set", "h_set", "list_int_set", 1, 0, 0), ("pop", "h_pop", "list_int_pop", 1, 0, 0),
+            ("push", "h_push", "list_int_push", 0, 1, 0), ("insert.nogrow", "h_insert", "list_int_insert", 1, 0, 1),
+            ("insert.grow", "h_insert", "list_int_insert", 1, 1, 1),
+            ("remove", "h_remove", "list_int_remove", 1, 0, 1), ("clear", "h_clear", "list_int_clear", 0, 0, 0),
+            ("length", "h_length", "list_int_length", 0, 0, 0), ("capacity", "h_capacity", "list_int_capacity", 0, 0, 0),
+            ("is_empty", "h_is_empty", "list_int_is_empty", 0, 0, 0), ("free", "h_free", "list_int_free", 0, 0, 0),
+            ("free_null", "h_free", "list_int_free", 0, 0, 0)]
+LIST_C08 = ("get", "set", "pop", "insert.nogrow", "insert.grow", "remove")
+
+
+def list_int(prop, pfx, only=None):
+    obs = []
+    for op, entry, fn, ab, grows, mm in LIST_OPS:
+        if only and op not in only:
+            continue
+        must = [r"%s\.postcondition" % fn, r"COVER"]
+        if grows:
+            must += [r"loop_invariant_step", r"decreases"]
+        if ab:
+            must += [r"C08: the run ends with a non-zero status"]
+        obs.append(dict(id="%s.%s" % (pfx, op), prop=prop, harness=LIST_H, entry=entry, annotate=LIST_ANN,
+                        sources=["src/runtime/list_int.c"],
+                        defines=dict({"VERIF_EXPECT_ABORT": 1} if ab else ({"VERIF_LIST_NULL": 1} if op == "free_null" else {}),
+                                     **({"VERIF_LIST_GROW": 1 if op.endswith(".grow") else 0} if op.startswith("insert") else {})),
+                        enforce=fn, replace=["memmove"] if mm else [], loops=True, gi_flags=GI, unwind="auto",
+                        strength="X" if op.startswith("insert") else "U",
+                        functions=[fn] + (["ensure_capacity"] if grows else []), must_have=must, min_checks=10, timeout=240,
+                        weight=4 if (grows or mm) else 1, witness={"replayer": "dyn"}))
+    return obs
 
 
 def obligations(repo):
-    obs = dyn_typed("C20", "C20.dyn", ["get", "set", "push", "pop"])
+    obs = list_int("C20", "C20.list.int")
+    obs += dyn_typed("C20", "C20.dyn", ["get", "set", "push", "pop"])
     obs += dyn_generic("C20", "C20.dyn")
     obs += dyn_struct("C20", "C20.dyn")
+    obs += dyn_push_struct("C20", "C20.dyn")
     return obs
